@@ -165,7 +165,7 @@ static void dfs(int depth, int initmask)
 					struct op o = {(uint8_t)kind, (uint8_t)lp, (uint8_t)t, (uint8_t)x};
 					if(!apply(o))
 						continue;
-					sx_evals++;
+					sx_evals++, sx_tick();
 					sx_transitions++;
 					if(kind == OP_RB)
 						sx_nontrivial++;
